@@ -88,7 +88,10 @@ class C16(Prop):
                 "compressNd_attrs", "compressNd_axis_attrs", "unaryOpDs_attrs", "rbinaryOpDs_attrs", "takeAxisIntsDs_attrs",
                 "stackDsA_attrs", "stackDsA_axis_attrs", "concatenateDsA_attrs", "concatenateDsA_axis_attrs", "reduceAllDs_attrs",
                 "reduceDs_attrs", "binaryOpDs_attrs", "binaryOpDs_axis_attrs", "stackDs_attrs", "stackDs_axis_attrs",
-                "concatenateDs_attrs", "concatenateDs_axis_attrs", "reindexLikeDs_attrs", "copyDs_attrs"]
+                "concatenateDs_attrs", "concatenateDs_axis_attrs", "reindexLikeDs_attrs", "copyDs_attrs",
+                "reindexAxisDsM_attrs", "reindexAxisDsM_axis_attrs", "readFile_attrs", "readMulti_attrs",
+                "interpAxisDs_attrs", "interpLike_attrs", "interpLikeDs_attrs", "reduceAllDs_axis_attrs",
+                "reduceDs_axis_attrs", "copyDs_axis_attrs", "unaryOpDs_axis_attrs", "rbinaryOpDs_axis_attrs"]
     rule = ("routing: the complete table class {DimArray, Dataset, Axis} x name class {public, underscore, read-only member, "
             "settable member, method, dimension name / excluded name} x {stored in attrs, absent} x {get, set, del} is "
             "tabulated from the implementation on every run (126 rows) and proved by `decide`; propagation: every operation "
@@ -110,10 +113,12 @@ class C16(Prop):
                    "[op attrs_prop], Axis objects sliced directly with ndarray / boolean keys [ax_ndarray, ax_bool: only Axis.__getitem__ on "
                    "positions is mirrored, as axisSelect]",
                    "mirror functions that return an array / Dataset and still have NO kept / dropped theorem pair (sweep only): "
-                   "reindexAxisDsM, readFile, readMulti, DatasetCtor.construct (a state machine over axis identities: it carries no "
-                   "metadata field), interpAxisDs, interpLike, interpLikeDs; attrs half only (no axis half): stackDsA / concatenateDsA with "
-                   "align=True (the axes of the aligned Datasets are not traced back to the inputs), reduceAllDs, reduceDs, reindexLikeDs, "
-                   "copyDs, unaryOpDs, rbinaryOpDs"]
+                   "DatasetCtor.construct (a state machine over axis identities: it carries no metadata field); attrs half only "
+                   "(no axis half): stackDsA / concatenateDsA with align=True (the axes of the aligned Datasets are not traced back "
+                   "to the inputs), reindexLikeDs (needs dimension preservation of reindex_axis, true for well-formed Datasets only), "
+                   "readFile, readMulti, and the axes OTHER than the interpolated one of interpAxisDs / interpLike / interpLikeDs "
+                   "(wave 5: reindexAxisDsM, readFile, readMulti, interpAxisDs, interpLike, interpLikeDs have their pair; reduceAllDs, "
+                   "reduceDs, copyDs, unaryOpDs, rbinaryOpDs their axis half)"]
 
     def mirrors(self):
         from dimarray.core import bases, dimarraycls
